@@ -168,9 +168,13 @@ def c05_instances(tier):
 
 
 # ------------------------------------------------------------------------------------------ table
-_WIP = "check not built yet in this round (work in progress; see DESIGN.md section 6 for the planned contract)"
-NOT_APPLICABLE = {k: _WIP for k in ["C01", "C02", "C03", "C06", "C07", "C08", "C09", "C10", "C11", "C12", "C13", "C14", "C15",
-                                    "C16", "C17", "C18", "C19"]}
+NOT_APPLICABLE = {
+    "C14": "history property over forward/backward/update iterations; its inductive step needs Model::update -> Model::parameters "
+           "(flat_map over Vec<&mut dyn Layer>), on which CBMC exhausts 30 GB / 10 min even for one dense layer and which Verus cannot "
+           "model (dyn Layer, iterator adapters); no contract over a sequence of iterations is expressible in the installed tools. The "
+           "other legs are decided under C15 (forward, loss, backward), C13 (optimizer step, fresh clean leaves), C01/C02 (exact "
+           "gradients) and C10 (no residue). See DESIGN.md section 6.",
+}
 
 PROPS = {
     "C04": {
@@ -571,7 +575,7 @@ for _k in ("C02", "C03", "C06", "C07"):
 
 
 # ------------------------------------------------------------------------------------------ C16 / C09 / C12 / C13 / C15 / C14 / C18
-def simple_inst(macro, name, args, function, contract, bounds, unwind=16, expect_panic=False, timeout=900, mem_gb=12):
+def simple_inst(macro, name, args, function, contract, bounds, unwind=16, expect_panic=False, timeout=900, mem_gb=24):
     src = "%s!(%s, %d%s);" % (macro, name, unwind, (", " + args) if args else "")
     return Instance(name, src, expect_panic=expect_panic, function=function, contract=contract, bounds=bounds, descr=name, timeout=timeout, mem_gb=mem_gb)
 
@@ -655,16 +659,19 @@ def c18_instances(tier):
 
 def c13_instances(tier):
     I = []
-    sets = [([2], [], [], 1), ([2], [1, 2], [], 1), ([1], [2], [2, 1], 1)]
+    sets = [([2], [1, 2], [], 1, 0.5), ([1], [2], [2, 1], 1, 2.0)]
     if tier == "thorough":
-        sets += [([2, 2], [2], [1], 1), ([2], [2], [], 2), ([1], [2], [1, 2], 2), ([3], [], [], 2), ([1, 1], [2, 1], [2], 1)]
-    for a, b, c, rounds in sets:
-        I.append(simple_inst("update_instance", "c13_update__%s__%s__%s__r%d" % (dn(a), dn(b), dn(c), rounds),
-                             "[%s], [%s], [%s], %d" % (lit(a), lit(b), lit(c), rounds), "GradientDescent::update",
-                             "every parameter holding a gradient becomes old - lr*own gradient (same dims, tracked, fresh leaf, gradient cleared); "
-                             "others untouched; older handles intact",
-                             "parameter shapes %s concrete; which parameters hold a gradient, tracking flags, values, lr in {1,2,1/2} SYMBOLIC; %d round(s)"
-                             % ([x for x in (a, b, c) if x], rounds), unwind=14, timeout=1500))
+        sets += [([2, 2], [2], [1], 1, 0.5), ([2], [2], [], 2, 2.0), ([1], [2], [1, 2], 2, 0.5), ([3], [], [], 2, 1.0), ([1, 1], [2, 1], [2], 1, 1.0)]
+    for a, b, c, rounds, lr in sets:
+        k = len([x for x in (a, b, c) if x])
+        masks = range(2 ** k) if (tier == "thorough" or k <= 2) else (0b101, 0b010, 0b110, 0b111)
+        for mask in masks:
+            I.append(simple_inst("update_instance", "c13_update__%s__%s__%s__r%d__m%d" % (dn(a), dn(b), dn(c), rounds, mask),
+                                 "[%s], [%s], [%s], %d, %d, %s" % (lit(a), lit(b), lit(c), rounds, mask, fl(lr)), "GradientDescent::update",
+                                 "every parameter holding a gradient becomes old - lr*own gradient (same dims, tracked, fresh leaf, gradient cleared); "
+                                 "others untouched; older handles intact",
+                                 "parameter shapes %s, gradient-holding subset mask %s (complement in later rounds), lr %s concrete; values and gradients symbolic; %d round(s)"
+                                 % ([x for x in (a, b, c) if x], bin(mask), lr, rounds), unwind=14, timeout=1500))
     return I
 
 
@@ -683,8 +690,12 @@ def c15_instances(tier):
     for d in ([[2, 2]] + ([[1, 2], [2, 1], [4]] if tier == "thorough" else [])):
         I.append(simple_inst("cost_instance", "c15_cost__%s" % dn(d), "[%s]" % lit(d), "cost::mse / cost::cross_entropy",
                              "mse = (target-output)^2/count; cross-entropy = -target*ln(output)/leading dim", "dims %s" % d, unwind=12))
-    I.append(simple_inst("train_instance", "c15_model__b2_2to1_i1", "2, 2, 1, 1", "Model::forward/backward/update",
-                         "forward = composition; backward returns the sum of the cost array", "dense 2->1, batch 2, mse, 1 iteration", unwind=14, timeout=2400, mem_gb=20))
+    I.append(simple_inst("train_instance", "c15_model__b1_1to1", "1, 1, 1, 1, 0.5, 1", "Model::forward / Model::backward",
+                         "forward = composition of the layers; backward returns the sum of the cost array and differentiates down to the parameters",
+                         "dense 1->1, batch 1, mse", unwind=12, timeout=1500, mem_gb=30))
+    if tier == "thorough":
+        I.append(simple_inst("train_instance", "c15_model__b2_2to1", "2, 2, 1, 1, 0.5, 1", "Model::forward / Model::backward",
+                             "forward = composition; backward returns the sum of the cost array", "dense 2->1, batch 2, mse", unwind=12, timeout=2400, mem_gb=30))
     return I
 
 
@@ -698,3 +709,104 @@ def c14_instances(tier):
               simple_inst("train_instance", "c14_train__b2_1to1_i3", "2, 1, 1, 3", "Model forward/backward/update loop", "as above", "dense 1->1, batch 2, 3 iterations",
                           unwind=14, timeout=3000, mem_gb=24)]
     return I
+
+
+def c08_instances(tier):
+    I = [ew_inst("mul", [2, 1, 2], [1, 2]), mm_inst([2, 2], False, [2, 2], True, [2]), graph_inst("diamond", GRAPHS["diamond"], mode=2)]
+    I += [i for i in c13_instances("quick")][:3]
+    if tier == "thorough":
+        I += [ew_inst("div", [2, 2], [2]), unary_inst("powf", 2, [2, 2], 0), sum_inst([2, 2], 1, 0), reshape_inst([2, 2], [4], 0),
+              conv_inst([], 1, 2, 3, 1, 1, 2, 1, 1, 0), graph_inst("user_diamond", GRAPHS["user_diamond"], mode=4, mid=2),
+              graph_inst("shared", GRAPHS["shared"], mode=3)] + c13_instances("quick")[3:]
+    return I
+
+
+def c19_instances(tier):
+    I = [ew_inst("add", [2, 2, 3], [2, 3]), ew_inst("div", [2, 2], [2]), mm_inst([2, 2], True, [2, 2], False, [2]),
+         unary_inst("powf", 3, [2], 0), unary_inst("sigmoid", 0, [2], 1), sum_inst([2, 2, 2], 2, 0),
+         simple_inst("ctor_instance", "c16_ctor__2x3__n6", "[2, 3], 6", "Array::from", "C16 under f32", "dims [2,3]", unwind=18),
+         simple_inst("ctor_instance", "c16_ctor__2x2__n3", "[2, 2], 3", "Array::from", "C16 under f32: refusal does not depend on the float width", "dims [2,2], 3 values", unwind=18, expect_panic=True),
+         graph_inst("diamond", GRAPHS["diamond"]), simple_inst("track_rule_instance", "c09_rule_matmul_c", "5", "matmul", "C09 under f32", "symbolic flags", timeout=1200)]
+    if tier == "thorough":
+        I += [ew_inst("mul", [2, 1], [1, 3], full=True), mm_inst([2, 3], False, [3, 2], False), conv_inst([], 1, 3, 3, 1, 2, 2, 1, 1, 0),
+              conv_inst([2], 1, 2, 2, 1, 1, 1, 1, 1, 1), ew_grad_inst("div", [2], [2, 2]), flatten_inst([2, 2, 3], [2, 3]),
+              multiuse_inst([2, 3], [3], 2), graph_inst("selfprod3", GRAPHS["selfprod3"], mode=2), softmax_inst(1, 0),
+              simple_inst("update_instance", "c13_update__2__1x2__none__r1__m3", "[2], [1, 2], [], 1, 3, 0.5", "GradientDescent::update", "C13 under f32", "", unwind=14)]
+    return I
+
+
+_GEN_NOTE = ("shapes / flags tables concrete per instance unless stated, values symbolic; Rc::drop_slow stubbed (A3) except in C18 instances; "
+             "bounded instances are never counted as proofs")
+PROPS.update({
+    "C16": {"level": "model_checking", "kani_groups": ["h_construct.rs"], "instances": c16_instances,
+            "technique": "bounded Kani contract instances: flatten_indices with symbolic dims/indices (rank <= 4, dims <= 4); constructors, Index, "
+                         "PartialEq, arr! with values over all bit patterns",
+            "level_text": "Bounded: flatten_indices = row-major offset for every dimension vector in 1..4 per rank and every in-range index (symbolic); "
+                          "the four constructors store dims/values verbatim, refuse zero dims / count mismatch / ragged nesting; indexing returns the "
+                          "row-major element; equality is exactly dims+values equality whatever flags or gradients. An all-sizes proof of "
+                          "flatten_indices is out of reach: Verus does not accept its filter/fold iterator chain and CBMC does not finish on 64-bit "
+                          "multiplier equivalence.",
+            "level_note": _GEN_NOTE, "explanation": "Bounded contract instances for construction, layout, indexing and equality."},
+    "C09": {"level": "model_checking", "kani_groups": ["h_graph.rs", "h_tracking.rs"], "instances": c09_instances,
+            "technique": "bounded Kani contract instances: flag functions and Clone (complete: loop-free, symbolic flags); tracked-iff rule per "
+                         "operation with symbolic operand flags; pass-level clauses on graph classes with mixed tracking",
+            "level_text": "Flag functions / clone: loop-free harness over symbolic flags (complete for those functions). Per operation: all 8 flag "
+                          "assignments symbolically, result tracked iff any operand; untracked results keep no graph and no reference (strong counts). "
+                          "Pass level (flags restored, no gradient on untracked operands, nothing through untracked intermediates, gradients untracked): "
+                          "the K-graph contract on graph classes with untracked leaves / intermediates. A tracked seed is outside the precondition.",
+            "level_note": _GEN_NOTE, "explanation": "Tracking contracts per handle, per operation and per pass (bounded)."},
+    "C12": {"level": "other", "audits": ["audit_handles"], "kani_groups": ["h_graph.rs", "h_tracking.rs", "h_handles.rs"], "instances": c12_instances,
+            "technique": "Clone contract (loop-free Kani harness) + source audit that nothing observes handle identity + bounded program variants "
+                         "with clones / drops / re-binding",
+            "level_text": "Clone: every field shared by pointer or copied by value (complete, loop-free). Audit (re-run from /repo's text): the only "
+                          "identity-sensitive calls are the two Rc::try_unwrap sites, no Drop impl, no count/ptr inspection; hence any function of an "
+                          "array is invariant under replacing a handle by its clone (argued, rustc-checked types). Bounded: three rewritings of one "
+                          "program (cloned operands, early drops, re-binding, pass from a clone of the result) give bitwise identical values and "
+                          "gradients; clone nodes inside graph classes.",
+            "level_note": _GEN_NOTE, "explanation": "Clone contract + identity audit + bounded program variants. obligations/discharged count the audit items."},
+    "C08": {"level": "other", "audits": ["audit_immutability"],
+            "kani_groups": ["h_elementwise.rs", "h_matmul.rs", "h_graph.rs", "h_model.rs", "h_ops.rs", "h_conv.rs"], "instances": c08_instances,
+            "technique": "frame condition discharged by rustc's type/borrow checker for all programs, with its premises re-audited from the source "
+                         "on every run; plus bounded operand-snapshot postconditions in Kani instances",
+            "level_text": "`dimensions: Vec<usize>` and `values: Rc<Vec<Float>>` carry no interior mutability, so no code holding `&Array` or a shared "
+                          "Rc can write them; rustc proves this for every program. The audit re-checks the premises (field types, no unsafe outside "
+                          "blas.rs, no Rc::get_mut/make_mut/raw pointers/transmute, no mutable accessor, optimizer assigns a new array). Bounded: "
+                          "operands, older handles and graph nodes are snapshotted and compared bitwise after operations, passes and updates.",
+            "level_note": _GEN_NOTE + "; the audit is lexical (regex over comment-free token text)",
+            "explanation": "Type-system frame argument + premise audit + bounded snapshots. obligations/discharged count the audit items."},
+    "C13": {"level": "model_checking", "kani_groups": ["h_model.rs", "h_ops.rs", "h_elementwise.rs"], "instances": c13_instances,
+            "technique": "bounded Kani contract instances of GradientDescent::update over parameter lists, every gradient-holding subset enumerated",
+            "level_text": "Bounded: 1-3 parameters with different shapes, every subset holding a gradient (enumerated; complement in the second "
+                          "round), symbolic values and gradients: updated parameters = old - lr*own gradient with same dims, tracked, fresh leaf, "
+                          "gradient cleared; others pointer-identical; older handles intact; misaligned drains change another parameter and fail.",
+            "level_note": _GEN_NOTE + "; learning rate concrete per instance (1, 2, 1/2)", "explanation": "Bounded contract of the optimizer step."},
+    "C15": {"level": "model_checking", "kani_groups": ["h_model.rs", "h_ops.rs", "h_elementwise.rs"], "instances": c15_instances,
+            "technique": "bounded Kani contract instances of Dense::forward, Conv::forward, mse, cross_entropy, Model::forward/backward against the "
+                         "documented formulas written as explicit loops",
+            "level_text": "Bounded: layer sizes, batch shape and activation concrete per instance; parameters (through a symbolic Initializer) and "
+                          "inputs symbolic. Dense = act(x W^T + b) for a vector and a batch; Conv = act(conv + bias per filter) incl. batch; costs "
+                          "per formula; model forward = composition and backward returns the sum of the cost array.",
+            "level_note": _GEN_NOTE + "; sigmoid/ln/powf via the deterministic models (A4); softmax activation covered by C07/C02 only",
+            "explanation": "Bounded contract instances for layers, costs and model."},
+    "C18": {"level": "model_checking", "audits": ["audit_handles"], "kani_groups": ["h_handles.rs"], "instances": c18_instances,
+            "technique": "bounded Kani instances with the REAL Rc drop glue: reference counts of every leaf cell after all results are dropped",
+            "level_text": "Bounded: programs with 1-3 passes (incl. none, repeated, interior) on [2] arrays; after the results go out of scope every "
+                          "Rc of each leaf (values, children, counter, pending, gradient) has strong count 1, no pending value remains, stored "
+                          "gradients are independent arrays, and Vec::from(leaf) succeeds. Structural half: no Drop impl, graph edges only in "
+                          "`children` (audit). The training-loop clause (model moved on to its next iteration) is covered only through C14's instances.",
+            "level_note": "no drop stub in these instances; graph size <= 5 nodes", "explanation": "Bounded release contract with real drop semantics."},
+    "C19": {"level": "other", "floats": ["f32"], "kani_features": [["f32"]],
+            "verus": ["V1_matmul_slice", "V2_unroll_blocks_op", "V3_roll_blocks_op", "V4a_slice_offset", "V4b_flatten_slice"],
+            "kani_groups": ["h_elementwise.rs", "h_matmul.rs", "h_ops.rs", "h_conv.rs", "h_construct.rs", "h_graph.rs", "h_tracking.rs", "h_model.rs"],
+            "instances": c19_instances,
+            "technique": "re-verification under the f32 feature: all Verus units with Float = f32, a cross-section of the Kani instances built with "
+                         "--features f32",
+            "level_text": "Decides 'every guarantee holds unchanged; shapes, tracking and accepted inputs do not depend on the width' for the units "
+                          "re-run: the Verus contracts do not mention the width and re-verify; the Kani instances use domains exact in 24 bits. The "
+                          "clause 'agrees with the double-precision reference to within single-precision rounding' is NOT decided (needs floating-point "
+                          "error analysis, which neither tool offers).",
+            "level_note": _GEN_NOTE, "explanation": "f32 re-verification of the kernels (unbounded) and a cross-section of instances (bounded).",
+            "not_decided": ["agreement with the double-precision reference to within single-precision rounding"]},
+})
+for _k in ("C16", "C09", "C12", "C08", "C13", "C15", "C18", "C19"):
+    NOT_APPLICABLE.pop(_k, None)
